@@ -258,5 +258,9 @@ func SelectEndPoint(addrs []string, user, token string) (addr string, channel Ch
 		}
 		return addr, channel, nil
 	}
+	if err == nil {
+		// every address was skipped
+		err = fmt.Errorf("no address to connect to in %v", addrs)
+	}
 	return "", nil, err
 }
